@@ -53,12 +53,12 @@ def ensure_driver() -> None:
         raise Infra("cannot build the model driver:\n" + log[-3000:])
 
 
-def run_model(lines: list[str], timeout: float = 300.0) -> list[str]:
+def run_model(lines: list[str], timeout: float = 900.0) -> list[str]:
     """pipe request lines to the native driver; one answer line per request (large batches are split over four
     driver processes: requests are independent of each other)"""
     if not lines:
         return []
-    if len(lines) > 40000:
+    if len(lines) > 8000:
         from concurrent.futures import ThreadPoolExecutor
         k = (len(lines) + 3) // 4
         parts = [lines[i:i + k] for i in range(0, len(lines), k)]
@@ -68,9 +68,9 @@ def run_model(lines: list[str], timeout: float = 300.0) -> list[str]:
     data = "\n".join(lines) + "\n"
     try:
         r = subprocess.run([str(DRIVER)], input=data, capture_output=True, text=True,
-                           timeout=max(timeout, len(data) / 20000.0))      # large batches get proportionally longer
+                           timeout=max(timeout, len(data) / 5000.0))      # large batches get proportionally longer
     except subprocess.TimeoutExpired:
-        raise Infra(f"model driver did not answer {len(lines)} requests within {max(timeout, len(data) / 20000.0):.0f}s")
+        raise Infra(f"model driver did not answer {len(lines)} requests within {max(timeout, len(data) / 5000.0):.0f}s")
     out = r.stdout.split("\n")
     if out and out[-1] == "":
         out.pop()
